@@ -58,6 +58,7 @@ MANIFEST = {
             'class-level command table is pre-warmed and excluded (C18 '
             'covers the compile race).',
 }
+DYNAMIC = True        # few heavy cases: dynamic load balancing
 RULE = ('operation histories over {R0,R1,R2,P,D,C,M0..M3,G0,G1} from 8 '
         'initial templates; literal depth 3/4, deduplicated depth 8/12.  A '
         'transition is non-trivial when it is a render that follows at '
